@@ -127,6 +127,8 @@ class Table:
         self.body = body
         self.max_paths = max_paths
         self.rows = []        # (constraints list, result)
+        self.effects = []     # parallel to rows: [(canonical place, Val)] stores through references / upvars on that path
+        self._mem = {}
         self._run()
 
     # ---- value rendering
@@ -146,6 +148,10 @@ class Table:
         pl = op["place"]
         if pl["l"] in env and all(pe["k"] == "deref" for pe in pl["p"]):
             return env[pl["l"]]
+        if pl["p"]:
+            key = canon_place(self.body, pl, {})
+            if ("mem", key) in env:
+                return env[("mem", key)]
         # field of a known aggregate
         if pl["l"] in env and env[pl["l"]].kind == "agg":
             v = env[pl["l"]]
@@ -223,9 +229,9 @@ class Table:
                                  "Gt": a.a > b.a, "Ge": a.a >= b.a}.get(op)
                         except TypeError:
                             r = None
-                        v = Val("const", r) if r is not None else Val("sym", "%s(%s,%s)" % (op, vdesc(a), vdesc(b)))
+                        v = Val("const", r) if r is not None else Val("bin", (op, a, b))
                     else:
-                        v = Val("sym", "%s(%s,%s)" % (rv["op"], vdesc(a), vdesc(b)))
+                        v = Val("bin", (rv["op"], a, b))
                 elif k in ("ref", "rawptr"):
                     pl = rv["place"]
                     if pl["l"] in env and all(pe["k"] == "deref" for pe in pl["p"]):
@@ -239,12 +245,17 @@ class Table:
                 if not dst["p"]:
                     env[dst["l"]] = v
                 else:
-                    # partial store into an aggregate we track: (_0 as Some).0 = ...; give up precision
-                    env.pop(dst["l"], None)
+                    # store through a projection: remember it as an effect of the path (and for later reads)
+                    key = canon_place(body, dst, {})
+                    env[("mem", key)] = v
+                    env[("eff",)] = env.get(("eff",), ()) + ((key, v),)
+                    if not any(pe["k"] == "deref" for pe in dst["p"]):
+                        env.pop(dst["l"], None)
             t = blk["term"]
             k = t["k"]
             if k == "return":
                 rows.append((list(cons), env.get(0, Val("sym", "?"))))
+                self.effects.append(list(env.get(("eff",), ())))
                 if len(rows) > self.max_paths:
                     raise TooComplex("too many paths in %s" % body.npath)
                 return
@@ -328,6 +339,8 @@ def vdesc(v):
         return render(v)
     if v.kind == "discr":
         return "discr(%s)" % v.a[0]
+    if v.kind == "bin":
+        return "%s(%s,%s)" % (v.a[0], vdesc(v.a[1]), vdesc(v.a[2]))
     return str(v.a)
 
 
@@ -335,6 +348,8 @@ def render(v):
     """Render an abstract value compactly: constants, enum variants (nested)."""
     if v.kind == "call":
         return "call:" + v.a[1]
+    if v.kind == "bin":
+        return "sym:" + vdesc(v)
     if v.kind == "const":
         return repr(v.a)
     if v.kind == "agg":
